@@ -1,5 +1,5 @@
 """C20 - transformation and interpretation are deterministic functions of their input."""
-import sys, os, json, tempfile, shutil
+import re, sys, os, json, tempfile, shutil
 sys.path.insert(0, os.path.join(os.path.dirname(os.path.abspath(__file__)), "..", "pylib"))
 sys.path.insert(0, os.path.dirname(os.path.abspath(__file__)))
 import harness, gen, trace
@@ -29,6 +29,29 @@ def budget(tier):
     return {"docs": 240, "min_nontrivial": 60}
 
 
+EXTRA_SNIPPETS = [
+    ('any', '<send event="z0"><content>hello world</content></send>'),
+    ('any', '<send event="z1"><content><a xmlns="" x="1"><b/>t</a></content></send>'),
+    ('any', '<send event="z2" id="fixedid"><content>  spaced   text, "quoted" &amp; more </content></send>'),
+    ('any', '<send event="z4" delay="1s" id="sd4"/>'),
+    ('data', '<send event="z6"><param name="p" expr="1"/><param name="q" expr="2"/></send>'),
+    ('data', '<log label="two  blanks" expr="1"/>'),
+    ('any', '<raise event="z3.with.dots"/>'),
+]
+
+
+def enrich(xml, ch):
+    """adds an <onentry> with the drawn snippets to the first proper state"""
+    picks = [EXTRA_SNIPPETS[i] for i in getattr(ch, 'c20_extras', [])]
+    picks = [t for need, t in picks if need == 'any' or ch.datamodel != 'null']
+    if not picks:
+        return xml
+    m = re.search(r'<(state|parallel)\b[^>]*[^/]>', xml)
+    if not m:
+        return xml
+    return xml[:m.end()] + '<onentry>' + ''.join(picks) + '</onentry>' + xml[m.end():]
+
+
 @st.composite
 def documents(draw):
     o = gen.GenOpts(max_states=6, history=True, faults=False, late_binding=False)
@@ -50,6 +73,8 @@ def documents(draw):
             gc.name = "grand%d" % i
             child.states[1].invokes = getattr(child.states[1], 'invokes', []) + [(draw(st.sampled_from(["g%d", "7c9e6679-7425-40de-944b-e07fc1f9ae7%d"])) % i, gc)]
         host.invokes = getattr(host, 'invokes', []) + [(id_shape % i, child)]
+    # literal payloads, written by the back-ends into their output: inline text / XML content, params, delays, odd labels
+    ch.c20_extras = draw(st.lists(st.integers(0, len(EXTRA_SNIPPETS) - 1), max_size=3, unique=True))
     return ch
 
 
@@ -84,7 +109,7 @@ def call(w, *args):
 
 def check_doc(ctx, ch, events):
     a, b, tmp = workers(ctx)
-    xml = ch.to_xml()
+    xml = enrich(ch.to_xml(), ch)
     base = "file:///c20/doc.scxml"
     labels = set()
     for be in ("c", "pml", "vhdl"):
